@@ -34,7 +34,11 @@ pub fn gen(seed: u64, tier: Tier, k: u64) -> Value {
         }
         return json!({"case": case.to_json(), "scn_seed": rng.next(), "many": true});
     }
-    let case = gen_small(&mut rng, tier, Pkg::OneFile, n_extra, 7);
+    let mut case = gen_small(&mut rng, tier, Pkg::OneFile, n_extra, 7);
+    // pack ids of the extra packs: dense (2, 3) or spread out (holes between the ids, ids beyond one byte)
+    if n_extra > 0 && k % 8 >= 6 {
+        case.id_gap = *rng.pick(&[1u16, 2, 254]);
+    }
     json!({"case": case.to_json(), "scn_seed": rng.next()})
 }
 
@@ -93,6 +97,7 @@ pub fn run(desc: &Value, ctx: &Ctx) -> CaseOut {
     let mut rng = Rng::new(ju64(desc, "scn_seed"));
     let scratch = Scratch::new(&ctx.work, "c10");
     crate::dirs::observe(&base.dir, &mut out);
+    observe_cont(&base, &mut out);
     let mut fp = Fp::new();
     fp.s(&out.fp).s(base.content.comp.name()).u(base.extra.len() as u64);
     out.fp = fp.hex();
